@@ -1,5 +1,6 @@
 (* Props/C14.v — property C14: built-in reports state exactly the facts of the event stream (structure). *)
 From CV Require Import Model.Base Model.Events Model.Contract Model.Stats Model.StatsSpec Model.Reporters Model.ReportersSpec Proofs.BaseP Proofs.ReportersP Proofs.ReportersP2 Proofs.ReportersP3.
+From CV Require Model.ReportersSpec4 Proofs.ReportersP8.
 From CV Require Model.ReportersSpec2 Proofs.ReportersP6 Model.ReportersSpec3 Proofs.ReportersP7 Model.AttemptSpec Model.Attempt.
 From CV Require Proofs.ReportersP4 Proofs.ReportersP5 Proofs.Compose Proofs.SchedP4 Proofs.SchedP7 Model.Sched.
 From Coq Require Import Lia.
@@ -361,3 +362,32 @@ Theorem C14_json_end_to_end_exact_statuses :
     ReportersSpec3.c14_json_ok2 (ReportersP5.raw_of es) (json_doc has_path (ReportersP5.ns_of es)) = true.
 Proof. exact ReportersP7.C14_json_end_to_end2. Qed.
 Print Assumptions C14_json_end_to_end_exact_statuses.
+
+
+(* ---------- THE `Feature:` AND `Rule:` LINES ARE FACTS TOO, AND THE LISTING IS IN STREAM ORDER (second review, M5) ----------
+   `c14_basic_attr_ok` gives the header lines no fact of their own: an invented `Rule:` line, invented or repeated `Feature:`
+   lines, a rule line under the wrong feature and a scrambled listing were still accepted. `ReportersSpec4`: every
+   `Feature: f` line is the fact [50; f], every `Rule: r` line the fact [51; f; r] with f the feature line above it; the
+   header facts equal those of the stream as multisets, and the WHOLE listing (headers, scenario headers, result lines,
+   parser errors, as one list in document order) equals the list computed from the stream the writer receives. *)
+Theorem C14_basic_headers_and_order :
+  forall es, normalized_prefix es = true -> ReportersSpec4.c14_basic_hdr_ok es (basic_lines es) = true.
+Proof. exact ReportersP8.C14_basic_hdr_ok. Qed.
+Print Assumptions C14_basic_headers_and_order.
+
+Theorem C14_basic_listing_is_in_stream_order :
+  forall es, normalized_prefix es = true -> ReportersSpec4.doc_facts (basic_lines es) = ReportersSpec4.stream_doc_facts es.
+Proof. exact ReportersP8.C14_basic_doc_in_stream_order. Qed.
+Print Assumptions C14_basic_listing_is_in_stream_order.
+
+(* end to end: header multiset against the RAW stream; the order against what Normalize forwards (against the raw,
+   interleaved stream the ordered clause is false: ReportersP8.ex5_order_not_raw) *)
+Theorem C14_basic_headers_end_to_end :
+  forall es : list mev, contract (ReportersP5.raw_of es) = true ->
+    ReportersSpec4.hdr_multiset_ok (ReportersP5.raw_of es) (basic_lines (ReportersP5.ns_of es)) = true /\
+    ReportersSpec4.doc_order_ok (ReportersP5.ns_of es) (basic_lines (ReportersP5.ns_of es)) = true.
+Proof.
+  intros es C. split; [exact (ReportersP8.C14_basic_hdr_multiset_end_to_end es C)
+                      |exact (ReportersP8.C14_basic_doc_order_behind_normalize es C)].
+Qed.
+Print Assumptions C14_basic_headers_end_to_end.
